@@ -31,6 +31,7 @@ def enabled(tree, meta):
         out.append((ops.create(d, FMT[d]), m2, cont))
     out.append((ops.create("", FMT[""]), m2, cont))
     out.append((ops.create("", ["md5", "c4"], n=True), m2, cont))
+    out.append((ops.create("", ["c4", "sha1"]), m2, cont))
     for f in sorted(p for p, c in med.items() if c is not DIR):
         out.append((ops.create("", ["xxh64"], sf=[f]), m2, cont))
     if meta.get("rich"):
